@@ -74,6 +74,26 @@ Proof.
   unfold seen, pending_on in H. rewrite Hrd, Nat.sub_0_r, firstn_all in H. exact H.
 Qed.
 
+(* ------------------------------------------------------------------ since fix 90a1ccff async_drop gives up its receiver before it
+   calls remove_match: no stream is ever "being dropped asynchronously while still holding its receiver".  The table `drops` of the
+   model (and the labels LDropSubs / LDropSender that work on it) described exactly that state; it stays empty for ever, the
+   two labels are never enabled. *)
+Lemma drops_step s l s' : tstep s l s' -> drops s = [] -> drops s' = [].
+Proof.
+  intros Hs Hd. destruct Hs; try exact Hd; try (rewrite Hd in *; discriminate).
+  - pose proof (rm_apply_frame _ _ _ _ H1) as (_ & _ & _ & Edrp & _). cbn [drops with_tasks]. now rewrite Edrp.
+  - pose proof (rm_apply_frame _ _ _ _ H1) as (_ & _ & _ & Edrp & _). cbn [drops with_tasks]. now rewrite Edrp.
+  - cbn [drops with_tasks]. now rewrite drops_rm.
+Qed.
+
+Theorem drops_nil tr s : reach tr s -> drops s = [].
+Proof. induction 1 as [|tr s l s' Hr IH Hs]; [reflexivity|]. eapply drops_step; [apply step_tstep; eassumption | assumption]. Qed.
+
+Corollary async_drop_labels_dead tr s sid : reach tr s -> step (LDropSubs sid) s = None /\ step (LDropSender sid) s = None.
+Proof.
+  intros Hr. pose proof (drops_nil _ _ Hr) as Hd. unfold Model.step. rewrite Hd. cbn [lookup]. split; destruct (lookup (streams s) sid); reflexivity.
+Qed.
+
 (* the executable replay stays inside the relation *)
 Lemma exec_reach_gen : forall tr tr0 s0 s, reach tr0 s0 -> exec tr s0 = Some s -> reach (tr0 ++ tr) s.
 Proof.
